@@ -144,6 +144,8 @@ class C10(PoolCheck):
                                'diff': diff_class(res, ref)}
                         if e.docs[op['doc']].kind == 'fault:root':
                             sig['doc'] = 'root-of-on-demand-namespace'
+                        elif getattr(e.docs[op['doc']], 'tag', None):
+                            sig['doc'] = e.docs[op['doc']].tag
                         violations.append({'signature': sig, 'detail': {
                             'entry': case['entry'], 'index': i, 'op': op, 'doc': e.docs[op['doc']].name,
                             'history': [[o['api'], e.docs[o['doc']].name if 'doc' in o else None, o.get('abort')]
